@@ -105,7 +105,21 @@ func jwkForDocType(r *fw.Rand, typ string) map[string]interface{} {
 	case TBls:
 		return map[string]interface{}{"kty": "EC", "crv": "BLS12381_G2", "x": oracle.B64(r.Bytes(96))}
 	}
-	return NewKey(r, fw.Pick(r, []string{Ed25519, P256, P384, Secp256k1})).PlainJWK()
+	j := NewKey(r, fw.Pick(r, []string{Ed25519, P256, P384, Secp256k1})).PlainJWK()
+	// JWKs may legitimately carry further members; they are key material and must survive every stage
+	if r.Chance(1, 4) {
+		for _, m := range pickDistinct(r, []string{"kid", "alg", "use", "key_ops", "d", "x5t"}, r.Range(1, 3)) {
+			switch m {
+			case "key_ops":
+				j[m] = []interface{}{"verify"}
+			case "d":
+				j[m] = oracle.B64(r.Bytes(32))
+			default:
+				j[m] = "v-" + m
+			}
+		}
+	}
+	return j
 }
 
 // RandPurposes draws a valid purpose subset (possibly empty = general key) for typ.
@@ -164,8 +178,8 @@ func RandService(r *fw.Rand, id string) map[string]interface{} {
 }
 
 var (
-	KeyIDPool = []string{"key1", "key2", "key-3", "k_4", "K5", "signing", "k", strings.Repeat("Kk-_0", 10)}           // incl. lengths 1 and 50
-	SvcIDPool = []string{"svc1", "svc2", "hub-3", "s_4", "s", strings.Repeat("S9_-s", 10)} // incl. lengths 1 and 50
+	KeyIDPool = []string{"key1", "key2", "key-3", "k_4", "K5", "signing", "k", strings.Repeat("Kk-_0", 10)} // incl. lengths 1 and 50
+	SvcIDPool = []string{"svc1", "svc2", "hub-3", "s_4", "s", strings.Repeat("S9_-s", 10)}                  // incl. lengths 1 and 50
 	// incl. pairs that differ as strings but normalise to the same URI (scheme case, percent-encoding): set semantics are by string
 	URIPool = []string{"https://alice.example.com", "did:example:alice", "urn:uuid:6d1d6e4c", "https://a.example/path?q=1", "http://blog.example.org/",
 		"HTTPS://alice.example.com", "https://blog.example/caf%C3%A9", "https://blog.example/café"}
@@ -268,6 +282,15 @@ func PJSON(ops ...interface{}) map[string]interface{} {
 var AllActions = []string{"replace", "add-public-keys", "remove-public-keys", "add-services", "remove-services",
 	"ietf-json-patch", "add-also-known-as", "remove-also-known-as"}
 
+// ListLen draws a list length: mostly 1..max, occasionally a longer list (up to the pool size) so that the fifth
+// and later entries of a patch value are exercised too.
+func ListLen(r *fw.Rand, max, pool int) int {
+	if r.Chance(1, 10) {
+		return r.Range(min(5, pool), pool)
+	}
+	return r.Range(1, max)
+}
+
 // RandKeys draws n valid keys with distinct ids from the pool.
 func RandKeys(r *fw.Rand, n int) []interface{} {
 	var out []interface{}
@@ -289,17 +312,17 @@ func RandServices(r *fw.Rand, n int) []interface{} {
 func RandSimplePatch(r *fw.Rand) map[string]interface{} {
 	switch r.Intn(9) {
 	case 0, 1:
-		return map[string]interface{}{"action": "add-public-keys", "publicKeys": RandKeys(r, r.Range(1, 3))}
+		return map[string]interface{}{"action": "add-public-keys", "publicKeys": RandKeys(r, ListLen(r, 3, len(KeyIDPool)))}
 	case 2:
-		return PRemoveKeys(pickDistinct(r, KeyIDPool, r.Range(1, 3))...)
+		return PRemoveKeys(pickDistinct(r, KeyIDPool, ListLen(r, 3, len(KeyIDPool)))...)
 	case 3, 4:
-		return map[string]interface{}{"action": "add-services", "services": RandServices(r, r.Range(1, 2))}
+		return map[string]interface{}{"action": "add-services", "services": RandServices(r, ListLen(r, 2, len(SvcIDPool)))}
 	case 5:
-		return PRemoveServices(pickDistinct(r, SvcIDPool, r.Range(1, 2))...)
+		return PRemoveServices(pickDistinct(r, SvcIDPool, ListLen(r, 2, len(SvcIDPool)))...)
 	case 6:
-		return PAddAka(PickURIs(r, r.Range(1, 3))...)
+		return PAddAka(PickURIs(r, ListLen(r, 3, 6))...)
 	case 7:
-		return PRemoveAka(PickURIs(r, r.Range(1, 2))...)
+		return PRemoveAka(PickURIs(r, ListLen(r, 2, 6))...)
 	}
 	var keys, svcs []interface{}
 	if r.Chance(4, 5) {
@@ -327,7 +350,7 @@ func RandJSONValue(r *fw.Rand, depth int) interface{} {
 	case 0:
 		return r.Intn(2000) - 1000
 	case 1:
-		return fw.Pick(r, []string{"", "v", "hello", "ü", "a b", "0"})
+		return fw.Pick(r, []string{"", "v", "hello", "ü", "a b", "0", "a\\u003cb", "<tag>&amp;", "q\"uote", "back\\slash", "line\nbreak", "\\u0026", "tab\there", "100%"})
 	case 2:
 		return r.Bool()
 	case 3:
@@ -353,12 +376,12 @@ func RandJSONValue(r *fw.Rand, depth int) interface{} {
 // pathsOf enumerates pointers of existing locations (excluding the root), with
 // container flags, skipping the protected members.
 type loc struct {
-	Ptr    string
-	Toks   []string
-	IsArr  bool
-	IsObj  bool
-	Len    int
-	InArr  bool // the location is an array element
+	Ptr   string
+	Toks  []string
+	IsArr bool
+	IsObj bool
+	Len   int
+	InArr bool // the location is an array element
 }
 
 func collectLocs(v interface{}, toks []string, inArr bool, out *[]loc, skipTop map[string]bool) {
